@@ -3,6 +3,8 @@ mod alpha;
 mod c02;
 mod c03;
 mod c05;
+mod c10;
+mod c11;
 mod c12;
 mod c13;
 mod common;
@@ -37,6 +39,13 @@ fn main() {
         "C02" => explorer(prop, &tier, replay, c02::specs(&tier), &c02::C02),
         "C03" => explorer(prop, &tier, replay, c03::specs(&tier, prop), &c03::C03),
         "C05" => explorer(prop, &tier, replay, c05::specs(&tier), &c05::C05),
+        "C10" => {
+            let specs = c10::specs(&tier);
+            let cfgs: Vec<_> = specs.iter().map(|s| s.cfg.clone()).collect();
+            let ck = c10::checker(&cfgs);
+            explorer(prop, &tier, replay, specs, &ck)
+        }
+        "C11" => explorer(prop, &tier, replay, c11::specs(&tier), &c11::C11),
         "C12" => explorer(prop, &tier, replay, c12::specs(&tier), &c12::C12),
         "C13" => explorer(prop, &tier, replay, c13::specs(&tier), &c13::C13),
         "C04" => explorer(prop, &tier, replay, c03::specs(&tier, prop), &c03::C04),
